@@ -122,6 +122,7 @@ package raft
 //@ inv [I6b] r.followers != nil ==> forall id string :: id in r.followers ==> r.followers[id] != nil
 //@ inv [I7] persTerm == r.currentTerm && persVote == r.votedFor
 //@ inv [I13] r.state == Leader ==> forall fid string :: fid in r.followers ==> r.followers[fid].nextIndex <= Llast + 1
+//@ inv [Isnap] r.snapshot != nil ==> sfWriter[r.snapshot] && !sfPublished[r.snapshot]
 //@ inv [I11] r.operationManager != nil && r.operationManager.leaderLease != nil
 //@ inv [I11b] r.operationManager.pendingReadOnly != nil && r.operationManager.pendingReplicated != nil
 //@ inv [I11c] forall o *Operation :: o in r.operationManager.pendingReadOnly ==> o != nil
@@ -612,10 +613,9 @@ package raft
 //@   ensures forall g int :: g != self ==> sfPos[g] == old(sfPos[g])
 //@   ensures err != nil ==> sfPos[self] == old(sfPos[self])
 //@ iface SnapshotFile.Close() (err)
-//@   modifies sfPublished, snapIndex, snapTerm
+//@   modifies sfPublished
 //@   ensures ioOK ==> err == nil
-//@   ensures err == nil && old(sfWriter[self]) && !old(sfPublished[self]) ==> sfPublished[self] && snapIndex == sfIndex[self] && snapTerm == sfTerm[self]
-//@   ensures !(err == nil && old(sfWriter[self]) && !old(sfPublished[self])) ==> snapIndex == old(snapIndex) && snapTerm == old(snapTerm) && sfPublished[self] == old(sfPublished[self])
+//@   ensures err == nil && old(sfWriter[self]) && !old(sfPublished[self]) ==> sfPublished[self]
 //@   ensures forall g int :: g != self ==> sfPublished[g] == old(sfPublished[g])
 //@ iface SnapshotFile.Discard() (err)
 //@   ensures ioOK ==> err == nil
@@ -632,7 +632,6 @@ package raft
 
 //@ guar [G5] r.lastIncludedIndex >= old(r.lastIncludedIndex)
 //@ guar [G6] Lfirst >= old(Lfirst)
-//@ guar [Gsnap] snapIndex >= old(snapIndex) || snapIndex == r.lastIncludedIndex
 
 //@ func Raft.InstallSnapshot
 //@   flags splitexits
@@ -640,14 +639,15 @@ package raft
 //@   let X = request.LastIncludedIndex
 //@   let T = request.LastIncludedTerm
 //@   assume [A-ES] request.Term == r.currentTerm ==> r.state != Leader
-//@   ensures [IS.shutdown] old(r.state) == Shutdown ==> err != nil && Llast == old(Llast) && Lfirst == old(Lfirst) && r.commitIndex == old(r.commitIndex) && r.lastApplied == old(r.lastApplied) && r.currentTerm == old(r.currentTerm) && r.votedFor == old(r.votedFor) && snapIndex == old(snapIndex)
+//@   ensures [IS.shutdown] old(r.state) == Shutdown ==> err != nil && Llast == old(Llast) && Lfirst == old(Lfirst) && r.commitIndex == old(r.commitIndex) && r.lastApplied == old(r.lastApplied) && r.currentTerm == old(r.currentTerm) && r.votedFor == old(r.votedFor)
 //@   ensures [IS.stale-term] err == nil && request.Term < entry(r.currentTerm) && old(r.state) != Shutdown ==> response.Term >= request.Term
 //@   at call r.snapshotStorage.NewSnapshotFile assert [IS.something-new] X > r.lastIncludedIndex && X > r.lastApplied && request.Term >= r.currentTerm
 //@   at call io.Copy assert [IS.chunk-identity] sfIndex[r.snapshot] == X && sfTerm[r.snapshot] == T
 //@   at call io.Copy assert [IS.offset] request.Offset == sfPos[r.snapshot] && sfWriter[r.snapshot] && !sfPublished[r.snapshot] && X > r.lastIncludedIndex && X > r.lastApplied
 //@   at call r.snapshot.Close assert [IS.publish-label] sfIndex[r.snapshot] == X && sfTerm[r.snapshot] == T && request.Done
-//@   at call r.log.Compact assert [IS.compact-after-applied] r.lastApplied >= X && inLog(X) && arg0 == X
-//@   at call r.log.DiscardEntries assert [IS.discard-only-on-mismatch] arg0 == X && arg1 == T && !(inLog(X) && Lterm[X] == T)
+//@   at call r.log.Compact assert [IS.compact-after-applied] r.lastApplied >= X && arg0 == X
+//@   at call r.snapshotStorage.SnapshotFile assert [IS.discard-only-on-mismatch] !(inLog(X) && Lterm[X] == T)
+//@   at call r.log.DiscardEntries assert [IS.discard-args] arg0 == X && arg1 == T
 //@   at before-assign r.lastApplied assert [IS.applied-monotone] newval >= r.lastApplied
 //@   at before-assign r.commitIndex assert [IS.commit-monotone] newval >= r.commitIndex
 //@   at before-assign r.lastIncludedIndex assert [IS.included-monotone] newval > r.lastIncludedIndex && newval == X
